@@ -1533,6 +1533,8 @@ type_t TypeChecker::getInlineIfCommonType(type_t t1, type_t t2) const
         return t2;
     else if (t1.is_clock() && !t2.is_clock() || !t1.is_clock() && t2.is_clock())
         return type_t{DOUBLE, {}, 0};
+    else if (t1.is_integral() && t2.is_integral() && t1.isBoolean() != t2.isBoolean())
+        return t1.isBoolean() ? t2 : t1;  // int/bool mix: an integer, whichever branch comes first
     else if (TypeChecker::areAssignmentCompatible(t1, t2))
         return t1;
     else if (TypeChecker::areAssignmentCompatible(t2, t1))
